@@ -6,6 +6,10 @@ import ArcaModel.Model.Dispatch
 -/
 open Lean Arca
 
+/-- every model's line-protocol handler: `op name → case → result` -/
+def handlers : List (String → Json → Option (Except String Json)) :=
+  [Arca.Dispatch.schemaHandler]
+
 partial def loop (stdin stdout : IO.FS.Stream) : IO Unit := do
   let line ← stdin.getLine
   if line.isEmpty then return ()
@@ -13,7 +17,7 @@ partial def loop (stdin stdout : IO.FS.Stream) : IO Unit := do
   if t.isEmpty then loop stdin stdout else
   let out := match Json.parse t with
     | .error e => Json.mkObj [("r", "badjson"), ("msg", e)]
-    | .ok j => Arca.Dispatch.handle j
+    | .ok j => Arca.Dispatch.handleWith handlers j
   stdout.putStrLn out.compress
   loop stdin stdout
 
